@@ -166,11 +166,14 @@ theorem stepAdd_inv {s s' : State} (h : stepAdd expected s = some s') :
     exact ⟨hd, by simp at h; exact h.symm⟩
   · contradiction
 
+/-- the worker record created by the `go` statement of the unchanged code -/
+def mkW (i : Nat) (p c : Bytes) : Worker :=
+  { id := i, path := p, content := c, failed := false, ops := [.pp, .write, .send, .done, .release] }
+
 theorem stepSpawn_inv {cfg : Cfg} {s s' : State} (h : stepSpawn expected cfg s = some s') :
     ∃ p c, s.dpc = .added ∧ cfg.jobs[s.idx]? = some (p, c) ∧
       s' = { s with dpc := .loop, idx := s.idx + 1,
-                    workers := s.workers ++ [{ id := s.idx, path := p, content := c, failed := false,
-                                               ops := [.pp, .write, .send, .done, .release] }] } := by
+                    workers := s.workers ++ [mkW s.idx p c] } := by
   unfold stepSpawn at h
   split at h
   · rename_i hd
@@ -178,7 +181,7 @@ theorem stepSpawn_inv {cfg : Cfg} {s s' : State} (h : stepSpawn expected cfg s =
     · contradiction
     · rename_i p c hj
       injection h with h
-      exact ⟨p, c, hd, hj, by simp at h; exact h.symm⟩
+      exact ⟨p, c, hd, hj, by simp at h; simp [mkW]; exact h.symm⟩
   · contradiction
 
 theorem stepEarlyRet_inv {s s' : State} (h : stepEarlyRet expected s = some s') :
@@ -217,5 +220,493 @@ theorem stepFinalRecv_inv {s s' : State} (h : stepFinalRecv expected s = some s'
     · rename_i hb _; simp at hb
     · rename_i hb; simp at hb
   · contradiction
+
+
+theorem inv_recvErr {cfg : Cfg} {s s' : State} (I : Inv cfg s)
+    (h : stepRecvErr expected cfg s = some s') : Inv cfg s' := by
+  obtain ⟨e, es, hd, hi, he, rfl⟩ := stepRecvErr_inv h
+  have hg := I.errsGen
+  rw [he] at hg
+  exact { I with
+    idxLt := by simp
+    idxEq := by simp
+    proc := by have := I.proc; simp [hd] at this ⊢; omega
+    wgc := by have := I.wgc; simp [hd] at this ⊢; omega
+    errsCnt := by have := I.errsCnt; simp [he] at this ⊢; omega
+    errsGen := fun x hx => hg x (List.mem_cons_of_mem _ hx)
+    errRecvGen := by
+      intro x hx
+      simp at hx; subst hx
+      exact hg e (List.mem_cons_self ..)
+    notLost := by simp
+    retNone := by have := I.retNone; simp [hd] at this ⊢; exact this
+    quiet := by simp }
+
+theorem inv_add {cfg : Cfg} {s s' : State} (I : Inv cfg s)
+    (h : stepAdd expected s = some s') : Inv cfg s' := by
+  obtain ⟨hd, rfl⟩ := stepAdd_inv h
+  exact { I with
+    idxLt := fun _ => I.idxLt (Or.inl hd)
+    idxEq := by simp
+    proc := by have := I.proc; simp [hd] at this ⊢; omega
+    wgc := by have := I.wgc; simp [hd] at this ⊢; omega
+    errRecvGen := by simp
+    notLost := by have := I.notLost; simp [hd] at this ⊢; exact this
+    retNone := by have := I.retNone; simp [hd] at this ⊢; exact this
+    quiet := by simp }
+
+theorem inv_earlyRet {cfg : Cfg} {s s' : State} (I : Inv cfg s)
+    (h : stepEarlyRet expected s = some s') : Inv cfg s' := by
+  obtain ⟨e, hd, hw, rfl⟩ := stepEarlyRet_inv h
+  exact { I with
+    idxLt := by simp
+    idxEq := by simp
+    proc := by have := I.proc; simp [hd] at this ⊢; omega
+    wgc := by have := I.wgc; simp [hd] at this ⊢; omega
+    errRecvGen := by simp
+    notLost := by simp
+    retNone := by simp
+    quiet := fun _ => hw
+    retNil := by simp
+    retErr := by
+      intro x hx
+      simp at hx; subst hx
+      exact I.errRecvGen e hd }
+
+theorem inv_finalWait {cfg : Cfg} {s s' : State} (I : Inv cfg s)
+    (h : stepFinalWait expected cfg s = some s') : Inv cfg s' := by
+  obtain ⟨hd, hi, hw, rfl⟩ := stepFinalWait_inv h
+  exact { I with
+    idxLt := by simp
+    idxEq := fun _ => Nat.le_antisymm I.idxLe hi
+    proc := by have := I.proc; simp [hd] at this ⊢; omega
+    wgc := by have := I.wgc; simp [hd] at this ⊢; omega
+    errRecvGen := by simp
+    notLost := by have := I.notLost; simp [hd] at this ⊢; exact this
+    retNone := by have := I.retNone; simp [hd] at this ⊢; exact this
+    quiet := fun _ => hw }
+
+
+theorem sumW_zero {f : Worker → Nat} {ws : List Worker} (h : sumW f ws = 0) {k : Nat} {w : Worker}
+    (hk : ws[k]? = some w) : f w = 0 := by
+  have := sumW_le f ws k w hk; omega
+
+theorem inv_finalRecv {cfg : Cfg} {s s' : State} (I : Inv cfg s)
+    (h : stepFinalRecv expected s = some s') : Inv cfg s' := by
+  obtain ⟨hd, h⟩ := stepFinalRecv_inv h
+  have hw := I.quiet (Or.inl hd)
+  have hdone : sumW doneC s.workers = 0 := by have := I.wgc; simp [hd] at this; omega
+  rcases h with ⟨he, rfl⟩ | ⟨e, es, he, rfl⟩
+  · exact { I with
+      idxLt := by simp
+      idxEq := by simp
+      proc := by have := I.proc; simp [hd] at this ⊢; omega
+      wgc := by have := I.wgc; simp [hd] at this ⊢; omega
+      errRecvGen := by simp
+      notLost := by simp
+      retNone := by simp
+      quiet := fun _ => hw
+      retNil := by
+        intro _
+        refine ⟨I.idxEq hd, ?_⟩
+        intro k w hk
+        cases hf : w.failed with
+        | false => rfl
+        | true =>
+          have := I.notLost (Or.inr (Or.inr (Or.inr hd))) k w hk hf
+            (wok_done_send (I.wok k w hk) (sumW_zero hdone hk))
+          rw [he] at this; simp at this
+      retErr := by simp }
+  · have hg := I.errsGen
+    rw [he] at hg
+    exact { I with
+      idxLt := by simp
+      idxEq := by simp
+      proc := by have := I.proc; simp [hd] at this ⊢; omega
+      wgc := by have := I.wgc; simp [hd] at this ⊢; omega
+      errsCnt := by have := I.errsCnt; simp [he] at this ⊢; omega
+      errsGen := fun x hx => hg x (List.mem_cons_of_mem _ hx)
+      errRecvGen := by simp
+      notLost := by simp
+      retNone := by simp
+      quiet := fun _ => hw
+      retNil := by simp
+      retErr := by
+        intro x hx
+        simp at hx; subst hx
+        exact hg e (List.mem_cons_self ..) }
+
+theorem inv_spawn {cfg : Cfg} {s s' : State} (I : Inv cfg s)
+    (h : stepSpawn expected cfg s = some s') : Inv cfg s' := by
+  obtain ⟨p, c, hd, hj, rfl⟩ := stepSpawn_inv h
+  have hlt := I.idxLt (Or.inr hd)
+  have hret : s.ret = none := I.retNone.mpr (by simp [hd])
+  have hlen := I.len
+  have hget : ∀ (k : Nat) (w : Worker),
+      (s.workers ++ [mkW s.idx p c])[k]? = some w →
+      s.workers[k]? = some w ∨ (k = s.idx ∧ w = mkW s.idx p c) := by
+    intro k w hk
+    rw [List.getElem?_append] at hk
+    split at hk
+    · exact Or.inl hk
+    · rename_i hge
+      right
+      have : k - s.workers.length = 0 := by
+        cases hkk : k - s.workers.length with
+        | zero => rfl
+        | succ n => rw [hkk] at hk; simp at hk
+      rw [this] at hk; simp at hk
+      exact ⟨by omega, hk.symm⟩
+  exact { I with
+    len := by simp [hlen]
+    idxLe := hlt
+    idxLt := by simp
+    idxEq := by simp
+    wok := by
+      intro k w hk
+      rcases hget k w hk with hk | ⟨rfl, rfl⟩
+      · exact I.wok k w hk
+      · exact ⟨rfl, c, hj, Or.inl ⟨rfl, rfl, rfl⟩⟩
+    proc := by have := I.proc; simp [hd, sumW_append_single, relC, mkW] at this ⊢; omega
+    wgc := by have := I.wgc; simp [hd, sumW_append_single, doneC, mkW] at this ⊢; omega
+    errsCnt := by have := I.errsCnt; simp [sumW_append_single, sendC, mkW] at this ⊢; omega
+    errsGen := fun x hx => ⟨Nat.lt_succ_of_lt (I.errsGen x hx).1, (I.errsGen x hx).2⟩
+    errRecvGen := by simp
+    notLost := by
+      intro _ k w hk hf hs
+      rcases hget k w hk with hk | ⟨rfl, rfl⟩
+      · exact I.notLost (Or.inr (Or.inr (Or.inl hd))) k w hk hf hs
+      · simp [mkW] at hf
+    wrIff := by
+      intro k w hk
+      rcases hget k w hk with hk | ⟨rfl, rfl⟩
+      · exact I.wrIff k w hk
+      · simp [wroteB, mkW]
+        intro a b hab
+        have := I.wrLt _ hab
+        simp at this
+    wrLt := fun x hx => Nat.lt_succ_of_lt (I.wrLt x hx)
+    retNone := by have := I.retNone; simp [hd] at this ⊢; exact this
+    quiet := by simp
+    retNil := by simp [hret]
+    retErr := by simp [hret] }
+
+
+/-- what a worker transition of the unchanged skeleton does, phase by phase
+    (`w` the worker before, the first index the worker after) -/
+inductive WStep (cfg : Cfg) (s : State) (k : Nat) (w : Worker) : Worker → State → Prop
+  | ppFail : w.ops = [.pp, .write, .send, .done, .release] → cfg.failPP k = true →
+      WStep cfg s k w { w with failed := true, ops := [.send, .done, .release] } { s with workers := s.workers.set k { w with failed := true, ops := [.send, .done, .release] } }
+  | ppOk : w.ops = [.pp, .write, .send, .done, .release] → cfg.failPP k = false →
+      WStep cfg s k w { w with content := cfg.ppf w.path w.content, ops := [.write, .send, .done, .release] } { s with workers := s.workers.set k { w with content := cfg.ppf w.path w.content, ops := [.write, .send, .done, .release] } }
+  | wrFail : w.ops = [.write, .send, .done, .release] → cfg.failWr k = true →
+      WStep cfg s k w { w with failed := true, ops := [.send, .done, .release] } { s with workers := s.workers.set k { w with failed := true, ops := [.send, .done, .release] } }
+  | wrOk : w.ops = [.write, .send, .done, .release] → cfg.failWr k = false →
+      WStep cfg s k w { w with failed := false, ops := [.done, .release] } { s with written := s.written ++ [(k, w.path, w.content)], workers := s.workers.set k { w with failed := false, ops := [.done, .release] } }
+  | send : w.ops = [.send, .done, .release] → w.failed = true → s.errs.length < cfg.jobs.length →
+      WStep cfg s k w { w with ops := [.done, .release] } { s with errs := s.errs ++ [k], workers := s.workers.set k { w with ops := [.done, .release] } }
+  | done : w.ops = [.done, .release] → 0 < s.wg →
+      WStep cfg s k w { w with ops := [.release] } { s with wg := s.wg - 1, workers := s.workers.set k { w with ops := [.release] } }
+  | release : w.ops = [.release] → 0 < s.processing →
+      WStep cfg s k w { w with ops := [] } { s with processing := s.processing - 1, workers := s.workers.set k { w with ops := [] } }
+
+theorem stepWorker_inv {cfg : Cfg} {s s' : State} {k : Nat} (I : Inv cfg s)
+    (h : stepWorker expected cfg s k = some s') :
+    ∃ w w', s.workers[k]? = some w ∧ WStep cfg s k w w' s' := by
+  unfold stepWorker at h
+  split at h
+  · contradiction
+  · rename_i w hk
+    refine ⟨w, ?_⟩
+    suffices h : ∃ w', WStep cfg s k w w' s' by exact h.elim fun w' h => ⟨w', hk, h⟩
+    obtain ⟨hid, c0, hj, hph⟩ := I.wok k w hk
+    subst hid
+    have hwg := sumW_le doneC _ _ w hk
+    have hwgc := I.wgc
+    rcases hph with ⟨ho, hf, hc⟩ | ⟨ho, hf, hp, hc⟩ | ⟨ho, hf, hjf⟩ | ⟨ho | ho | ho, _⟩
+    all_goals (simp only [ho] at h)
+    · split at h
+      · rename_i hp
+        injection h with h; subst h
+        exact ⟨_, by simpa using WStep.ppFail (s := s) ho hp⟩
+      · rename_i hp
+        injection h with h; subst h
+        exact ⟨_, WStep.ppOk ho (by simpa using hp)⟩
+    · split at h
+      · rename_i hp
+        injection h with h; subst h
+        exact ⟨_, WStep.wrFail ho hp⟩
+      · rename_i hp
+        injection h with h; subst h
+        exact ⟨_, by simpa using WStep.wrOk (s := s) ho (by simpa using hp)⟩
+    · simp only [hf, if_true] at h
+      split at h
+      · rename_i hl
+        injection h with h; subst h
+        exact ⟨_, by simpa [hf] using WStep.send (s := s) ho hf (by simpa [capOf] using hl)⟩
+      · contradiction
+    · split at h
+      · rename_i h0
+        simp [doneC, ho] at hwg
+        omega
+      · rename_i h0
+        injection h with h; subst h
+        exact ⟨_, WStep.done ho (by omega)⟩
+    · split at h
+      · contradiction
+      · rename_i h0
+        injection h with h; subst h
+        exact ⟨_, WStep.release ho (by omega)⟩
+    · contradiction
+
+/-! ### worker transitions preserve the invariant -/
+
+theorem returned_doneC {cfg : Cfg} {s : State} (I : Inv cfg s) (hr : s.ret ≠ none) {k : Nat} {w : Worker}
+    (hk : s.workers[k]? = some w) : doneC w = 0 := by
+  have hd : s.dpc = .returned := by
+    have := I.retNone
+    cases hdp : s.dpc <;> simp [hdp] at this <;> first | exact absurd this hr | rfl
+  have hw := I.quiet (Or.inr hd)
+  have := I.wgc
+  have := sumW_le doneC _ k w hk
+  omega
+
+theorem inv_worker {cfg : Cfg} {s s' : State} {k : Nat} (I : Inv cfg s)
+    (h : stepWorker expected cfg s k = some s') : Inv cfg s' := by
+  obtain ⟨w, w', hk, hs⟩ := stepWorker_inv I h
+  obtain ⟨hid, c0, hj, hph⟩ := I.wok k w hk
+  have hrel := sumW_set relC s.workers k w w' hk
+  have hdone := sumW_set doneC s.workers k w w' hk
+  have hsend := sumW_set sendC s.workers k w w' hk
+  have hproc := I.proc
+  have hwgc := I.wgc
+  have hcnt := I.errsCnt
+  have hklt : k < s.idx := by
+    have := I.len
+    have : k < s.workers.length := by
+      rcases Nat.lt_or_ge k s.workers.length with h | h
+      · exact h
+      · rw [List.getElem?_eq_none h] at hk; contradiction
+    omega
+  cases hs with
+  | ppFail ho hp =>
+    have hjf : cfg.jobFails k = true := by simp [Cfg.jobFails, hp]
+    have hrd : s.ret = none := by
+      cases hr : s.ret with
+      | none => rfl
+      | some r => have := returned_doneC I (by simp [hr]) hk; simp [doneC, ho] at this
+    exact { I with
+      len := by simp [I.len]
+      wok := forall_set hk I.wok (fun _ _ _ h => h) ⟨hid, c0, hj, Or.inr (Or.inr (Or.inl ⟨rfl, rfl, hjf⟩))⟩
+      proc := by simp [relC, ho] at hrel ⊢; omega
+      wgc := by simp [doneC, ho] at hdone ⊢; omega
+      errsCnt := by simp [sendC, ho] at hsend ⊢; omega
+      notLost := fun hd => forall_set hk (I.notLost hd) (fun _ _ _ h => h) (by simp [sendC])
+      wrIff := forall_set hk I.wrIff (fun _ _ _ h => h) (by
+        have := I.wrIff k w hk; simp [wroteB, ho] at this ⊢; exact this)
+      retNil := by simp [hrd]
+      retErr := by simp [hrd] }
+  | ppOk ho hp =>
+    obtain ⟨hf, hc⟩ : w.failed = false ∧ w.content = c0 := by
+      rcases hph with ⟨_, hf, hc⟩ | ⟨ho', _⟩ | ⟨ho', _⟩ | ⟨ho' | ho' | ho', _⟩ <;> simp_all
+    have hrd : s.ret = none := by
+      cases hr : s.ret with
+      | none => rfl
+      | some r => have := returned_doneC I (by simp [hr]) hk; simp [doneC, ho] at this
+    exact { I with
+      len := by simp [I.len]
+      wok := forall_set hk I.wok (fun _ _ _ h => h) ⟨hid, c0, hj, Or.inr (Or.inl ⟨rfl, hf, hp, by simp [hc]⟩)⟩
+      proc := by simp [relC, ho] at hrel ⊢; omega
+      wgc := by simp [doneC, ho] at hdone ⊢; omega
+      errsCnt := by simp [sendC, ho] at hsend ⊢; omega
+      notLost := fun hd => forall_set hk (I.notLost hd) (fun _ _ _ h => h) (by simp [hf])
+      wrIff := forall_set hk I.wrIff (fun _ _ _ h => h) (by
+        have := I.wrIff k w hk; simp [wroteB, ho] at this ⊢; exact this)
+      retNil := by simp [hrd]
+      retErr := by simp [hrd] }
+  | wrFail ho hp =>
+    have hjf : cfg.jobFails k = true := by simp [Cfg.jobFails, hp]
+    have hrd : s.ret = none := by
+      cases hr : s.ret with
+      | none => rfl
+      | some r => have := returned_doneC I (by simp [hr]) hk; simp [doneC, ho] at this
+    exact { I with
+      len := by simp [I.len]
+      wok := forall_set hk I.wok (fun _ _ _ h => h) ⟨hid, c0, hj, Or.inr (Or.inr (Or.inl ⟨rfl, rfl, hjf⟩))⟩
+      proc := by simp [relC, ho] at hrel ⊢; omega
+      wgc := by simp [doneC, ho] at hdone ⊢; omega
+      errsCnt := by simp [sendC, ho] at hsend ⊢; omega
+      notLost := fun hd => forall_set hk (I.notLost hd) (fun _ _ _ h => h) (by simp [sendC])
+      wrIff := forall_set hk I.wrIff (fun _ _ _ h => h) (by
+        have := I.wrIff k w hk; simp [wroteB, ho] at this ⊢; exact this)
+      retNil := by simp [hrd]
+      retErr := by simp [hrd] }
+  | wrOk ho hp =>
+    obtain ⟨hf, hpp, hc⟩ : w.failed = false ∧ cfg.failPP k = false ∧ w.content = cfg.ppf w.path c0 := by
+      rcases hph with ⟨ho', _⟩ | ⟨_, hf, hpp, hc⟩ | ⟨ho', _⟩ | ⟨ho' | ho' | ho', _⟩ <;> simp_all
+    have hjf : cfg.jobFails k = false := by simp [Cfg.jobFails, hp, hpp]
+    have hrd : s.ret = none := by
+      cases hr : s.ret with
+      | none => rfl
+      | some r => have := returned_doneC I (by simp [hr]) hk; simp [doneC, ho] at this
+    have hnot : k ∉ s.written.map (·.1) := by
+      intro hm
+      have := (I.wrIff k w hk).mp hm
+      simp [wroteB, ho] at this
+    exact { I with
+      len := by simp [I.len]
+      wok := forall_set hk I.wok (fun _ _ _ h => h) ⟨hid, c0, hj, Or.inr (Or.inr (Or.inr ⟨Or.inl rfl, Or.inr ⟨rfl, hjf, hc⟩⟩))⟩
+      proc := by simp [relC, ho] at hrel ⊢; omega
+      wgc := by simp [doneC, ho] at hdone ⊢; omega
+      errsCnt := by simp [sendC, ho] at hsend ⊢; omega
+      notLost := fun hd => forall_set hk (I.notLost hd) (fun _ _ _ h => h) (by simp)
+      wrNodup := by
+        simp only [List.map_append, List.map_cons, List.map_nil]
+        exact List.nodup_append.mpr ⟨I.wrNodup, by simp, by
+          intro a ha b hb
+          simp at hb; subst hb
+          intro hab; subst hab; exact hnot ha⟩
+      wrOwn := by
+        intro x hx
+        rcases List.mem_append.mp hx with hx | hx
+        · exact I.wrOwn x hx
+        · simp at hx; subst hx
+          exact ⟨c0, hj, hc⟩
+      wrIff := forall_set hk I.wrIff (fun j x hjk h => by
+          simp only [List.map_append, List.map_cons, List.map_nil, List.mem_append, List.mem_singleton]
+          constructor
+          · rintro (h' | h')
+            · exact h.mp h'
+            · exact absurd h' hjk
+          · intro h'; exact Or.inl (h.mpr h')) (by simp [wroteB])
+      wrLt := by
+        intro x hx
+        rcases List.mem_append.mp hx with hx | hx
+        · exact I.wrLt x hx
+        · simp at hx; subst hx; exact hklt
+      retNil := by simp [hrd]
+      retErr := by simp [hrd] }
+  | send ho hf hl =>
+    have hjf : cfg.jobFails k = true := by
+      rcases hph with ⟨ho', _⟩ | ⟨ho', _⟩ | ⟨_, _, hjf⟩ | ⟨ho' | ho' | ho', _⟩ <;> simp_all
+    have hrd : s.ret = none := by
+      cases hr : s.ret with
+      | none => rfl
+      | some r => have := returned_doneC I (by simp [hr]) hk; simp [doneC, ho] at this
+    exact { I with
+      len := by simp [I.len]
+      wok := forall_set hk I.wok (fun _ _ _ h => h) ⟨hid, c0, hj, Or.inr (Or.inr (Or.inr ⟨Or.inl rfl, Or.inl ⟨hf, hjf⟩⟩))⟩
+      proc := by simp [relC, ho] at hrel ⊢; omega
+      wgc := by simp [doneC, ho] at hdone ⊢; omega
+      errsCnt := by simp [sendC, ho] at hsend ⊢; omega
+      errsGen := by
+        intro x hx
+        rcases List.mem_append.mp hx with hx | hx
+        · exact I.errsGen x hx
+        · simp at hx; subst hx; exact ⟨hklt, hjf⟩
+      notLost := fun hd => forall_set hk (I.notLost hd)
+        (fun _ _ _ h hf' hs' => List.mem_append_left _ (h hf' hs')) (fun _ _ => by simp)
+      wrIff := forall_set hk I.wrIff (fun _ _ _ h => h) (by
+        have := I.wrIff k w hk; simp [wroteB, ho, hf] at this ⊢; exact this)
+      retNil := by simp [hrd]
+      retErr := by simp [hrd] }
+  | done ho hpos =>
+    obtain hst : (w.failed = true ∧ cfg.jobFails k = true) ∨
+        (w.failed = false ∧ cfg.jobFails k = false ∧ w.content = cfg.ppf w.path c0) := by
+      rcases hph with ⟨ho', _⟩ | ⟨ho', _⟩ | ⟨ho', _⟩ | ⟨_, hst⟩ <;> simp_all
+    have hrd : s.ret = none := by
+      cases hr : s.ret with
+      | none => rfl
+      | some r => have := returned_doneC I (by simp [hr]) hk; simp [doneC, ho] at this
+    exact { I with
+      len := by simp [I.len]
+      wok := forall_set hk I.wok (fun _ _ _ h => h) ⟨hid, c0, hj, Or.inr (Or.inr (Or.inr ⟨Or.inr (Or.inl rfl), hst⟩))⟩
+      proc := by simp [relC, ho] at hrel ⊢; omega
+      wgc := by simp [doneC, ho] at hdone ⊢; omega
+      errsCnt := by simp [sendC, ho] at hsend ⊢; omega
+      notLost := fun hd => forall_set hk (I.notLost hd) (fun _ _ _ h => h) (fun hf' _ =>
+        I.notLost hd k w hk hf' (by simp [sendC, ho]))
+      wrIff := forall_set hk I.wrIff (fun _ _ _ h => h) (by
+        have := I.wrIff k w hk; simp [wroteB, ho] at this ⊢; exact this)
+      quiet := fun hd => by have := I.quiet hd; omega
+      retNil := by simp [hrd]
+      retErr := by simp [hrd] }
+  | release ho hpos =>
+    obtain hst : (w.failed = true ∧ cfg.jobFails k = true) ∨
+        (w.failed = false ∧ cfg.jobFails k = false ∧ w.content = cfg.ppf w.path c0) := by
+      rcases hph with ⟨ho', _⟩ | ⟨ho', _⟩ | ⟨ho', _⟩ | ⟨_, hst⟩ <;> simp_all
+    exact { I with
+      len := by simp [I.len]
+      wok := forall_set hk I.wok (fun _ _ _ h => h) ⟨hid, c0, hj, Or.inr (Or.inr (Or.inr ⟨Or.inr (Or.inr rfl), hst⟩))⟩
+      proc := by simp [relC, ho] at hrel ⊢; omega
+      wgc := by simp [doneC, ho] at hdone ⊢; omega
+      errsCnt := by simp [sendC, ho] at hsend ⊢; omega
+      notLost := fun hd => forall_set hk (I.notLost hd) (fun _ _ _ h => h) (fun hf' _ =>
+        I.notLost hd k w hk hf' (by simp [sendC, ho]))
+      wrIff := forall_set hk I.wrIff (fun _ _ _ h => h) (by
+        have := I.wrIff k w hk; simp [wroteB, ho] at this ⊢; exact this)
+      retNil := fun hr => ⟨(I.retNil hr).1, forall_set hk (I.retNil hr).2 (fun _ _ _ h => h) ((I.retNil hr).2 k w hk)⟩ }
+
+
+theorem inv_step {cfg : Cfg} {s s' : State} {l : Label} (I : Inv cfg s)
+    (h : step expected cfg s l = some s') : Inv cfg s' := by
+  unfold step at h
+  simp only [I.noPanic] at h
+  cases l <;> simp only [stepCore] at h
+  · exact inv_acquire I h
+  · exact inv_recvErr I h
+  · exact inv_add I h
+  · exact inv_spawn I h
+  · exact inv_earlyRet I h
+  · exact inv_finalWait I h
+  · exact inv_finalRecv I h
+  · exact inv_worker I h
+
+theorem reach_inv {cfg : Cfg} {s : State} (h : Reach expected cfg s) : Inv cfg s := by
+  induction h with
+  | init => exact inv_init cfg
+  | step _ hs ih => exact inv_step ih hs
+
+/-! ### termination -/
+
+def rank : DPc → Nat
+  | .loop => 4 | .acquired => 3 | .added => 2 | .errRecv _ => 1 | .finalRecv => 1 | .returned => 0
+
+def opsLen (w : Worker) : Nat := w.ops.length
+
+/-- strictly decreases on every transition; `variant cfg init = 10 * N + 4` -/
+def variant (cfg : Cfg) (s : State) : Nat :=
+  (cfg.jobs.length - s.idx) * 10 + rank s.dpc + sumW opsLen s.workers
+
+theorem variant_decreases {cfg : Cfg} {s s' : State} {l : Label} (I : Inv cfg s)
+    (h : step expected cfg s l = some s') : variant cfg s' < variant cfg s := by
+  unfold step at h
+  simp only [I.noPanic] at h
+  cases l <;> simp only [stepCore] at h
+  · unfold stepAcquire at h
+    repeat' split at h
+    all_goals (try (simp at h))
+    all_goals (try (simp at *; done))
+    rename_i hc _ _
+    subst h
+    simp [variant, rank, hc.1]
+  · obtain ⟨e, es, hd, hi, he, rfl⟩ := stepRecvErr_inv h
+    simp [variant, rank, hd]
+  · obtain ⟨hd, rfl⟩ := stepAdd_inv h
+    simp [variant, rank, hd]
+  · obtain ⟨p, c, hd, hj, rfl⟩ := stepSpawn_inv h
+    have := I.idxLt (Or.inr hd)
+    simp [variant, rank, hd, sumW_append_single, opsLen, mkW]
+    omega
+  · obtain ⟨e, hd, hw, rfl⟩ := stepEarlyRet_inv h
+    simp [variant, rank, hd]
+  · obtain ⟨hd, hi, hw, rfl⟩ := stepFinalWait_inv h
+    simp [variant, rank, hd]
+  · obtain ⟨hd, h⟩ := stepFinalRecv_inv h
+    rcases h with ⟨he, rfl⟩ | ⟨e, es, he, rfl⟩ <;> simp [variant, rank, hd]
+  · rename_i k
+    obtain ⟨w, w', hk, hs⟩ := stepWorker_inv I h
+    have hlen := sumW_set opsLen s.workers k w w' hk
+    cases hs <;> simp [variant, opsLen, *] at hlen ⊢ <;> omega
 
 end AsyncPP
